@@ -7,6 +7,36 @@ TB = ("Coq 8.16.1 kernel; axioms as printed by Print Assumptions (allow-list in 
       "tied to /repo only by that correspondence (DESIGN.md section 8)")
 
 CHECKS = {
+ "C18": dict(
+   text="Machine-checked for EVERY input string (no bound on length) on the model of the parsers (after 5 repairs of panics "
+        "and of exponential grouping time): parse_term, parse_arguments, parse_linked_list, parse_complex, parse_function, "
+        "parse_query, parse_subgoal return a value or an error - never Panic, never out-of-fuel - for every fuel >= length + 2; "
+        "tokenize, generate_goal and parse_rule (closed with the real leaf parsers) likewise for fuel >= 2*length + 3; the "
+        "remaining panic! sites of tokenizer.rs/token.rs are modelled as Panic and proved unreachable from the entry points. "
+        "Tied to the code by differential execution: all strings of length <= 3 over the syntax alphabet, grammar-based texts, "
+        "mutations (1.3 million cases in the quick tier); observation class ok/err/panic/diverged and the parsed AST.",
+   ref="7/C18",
+   technique="Coq proof of totality with explicit linear fuel bounds (Properties/C18.v) + model-vs-implementation correspondence via extraction"),
+ "C19": dict(
+   text="PARTIAL at the term level. Machine-checked in full at the goal and rule level: for every canonical goal (any nesting of "
+        "conjunctions/disjunctions over leaf goals) and every canonical rule, Display yields the canonical text and the parser "
+        "yields the value back, relative to the hypothesis that the leaf parser inverts Display on each leaf text (decidable "
+        "criterion `neutralb` for the tokenizer's part). At the leaf/term level that inversion is proved for 64-bit integers "
+        "only; for atoms, floats, variables, lists, complex terms, built-ins and infix forms it is stated (C19_terms_full) and "
+        "decided on every run by the correspondence check: canonical ASTs are printed by the real Display, parsed by the real "
+        "parser and compared, and the model is compared with both.", ref="7/C19",
+   technique="Coq proof of the goal/rule round trip (Properties/C19.v) + print/parse round trip on the implementation + model-vs-implementation correspondence"),
+ "C20": dict(
+   text="Machine-checked for all strings satisfying decidable side conditions (no top-level separator, balanced brackets and "
+        "quotes, no arithmetic infix - each a boolean function stated in Properties/C20.v): the text parses to the same term "
+        "on its own (parse_term), as the single or k-th argument of parse_arguments, as a list element, as an argument of a "
+        "complex term and of a query, and as either operand of = == < <= > >=. The arithmetic-infix case is a genuine, "
+        "recorded finding (`$X + 1` is add($X, 1) on its own but an atom as an argument; C20_full_is_false proves the "
+        "unrestricted statement false of the model). Tied to the code by differential execution over signed numbers, d-d "
+        "forms, punctuation atoms, escapes and all short strings in every context; the context relations are also checked on "
+        "the implementation's own results.", ref="7/C20",
+   technique="Coq proof of context independence under decidable side conditions (Properties/C20.v) + model-vs-implementation correspondence + context relations on the implementation"),
+
  "C22": dict(
    text="Machine-checked on the model (all programs, queries, operation sequences, worlds): everything that outlives a query "
         "is the record `world` (variable-id counter, stop flag, printed text); the query constructor overwrites counter and "
